@@ -1,7 +1,7 @@
 """C03 — async mutex: no lost wake-up (hand-over on unlock / on drop of a notified waiter;
 waker use; latest waker stored)."""
 from rl import (entry_methods, fields_of, loc_endswith, path_cond, trace_summary, where, const_of, fmt_val, fmt_loc)
-from common import (w3_waker_use, w4_pending_stores_waker, w4_helper, contains, own_node_roots, poll_variant)
+from common import (effective, w3_waker_use, w4_pending_stores_waker, w4_helper, contains, own_node_roots, poll_variant)
 from engine import NONE
 from lib import CheckerError
 
@@ -73,7 +73,8 @@ def run(C, R):
                     continue
                 # R1: clearing is_locked
                 clears = [(i, e) for i, e in enumerate(path.events)
-                          if e['k'] == 'write' and loc_endswith(e['loc'], 'is_locked') and e['val'] == ('const', 0)]
+                          if e['k'] == 'write' and loc_endswith(e['loc'], 'is_locked') and e['val'] == ('const', 0)
+                          and effective(E, path, e)]     # (false stored over false releases nothing)
                 for i, e in clears:
                     n_r1 += 1
                     ok, why = handover(E, F, path, i)
